@@ -43,6 +43,20 @@ func freeOfType(cl *ssa.Function, pred func(types.Type) bool) string {
 		return ""
 	}
 	name, n := "", 0
+	if ei := envMethods[cl]; ei != nil {
+		// a method standing for the closure: the receiver's fields
+		for i := 0; i < ei.st.NumFields(); i++ {
+			t := ei.st.Field(i).Type()
+			if pt, ok := t.Underlying().(*types.Pointer); ok && pred(pt.Elem()) || pred(t) {
+				name = ei.st.Field(i).Name()
+				n++
+			}
+		}
+		if n != 1 {
+			return ""
+		}
+		return name
+	}
 	for _, fv := range cl.FreeVars {
 		t := fv.Type()
 		if pt, ok := t.Underlying().(*types.Pointer); ok {
@@ -125,6 +139,12 @@ func localFeedingField(fn *ssa.Function, typeSuffix, fieldName string) string {
 			if ld, ok := st.Val.(*ssa.UnOp); ok {
 				if a, ok := ld.X.(*ssa.Alloc); ok {
 					return a.Comment
+				}
+				// a field of a callback environment struct (see envInfo)
+				if efa, ok := ld.X.(*ssa.FieldAddr); ok {
+					if a, ok := efa.X.(*ssa.Alloc); ok && envAllocs[a] {
+						return fieldNameOf(efa)
+					}
 				}
 			}
 		}
@@ -212,7 +232,157 @@ func loopPhiOfType(fn *ssa.Function, pred func(types.Type) bool) string {
 	return ""
 }
 
+// capturedVarAlloc: the local of parent behind the callback's captured
+// variable: the captured local itself (closure form) or the environment struct
+// that holds it as a field (method form, see envInfo).
+func capturedVarAlloc(parent, cl *ssa.Function, name string) *ssa.Alloc {
+	if envMethods[cl] != nil {
+		if mc := envMakeClosure(parent, cl); mc != nil && len(mc.Bindings) == 1 {
+			a, _ := mc.Bindings[0].(*ssa.Alloc)
+			return a
+		}
+		return nil
+	}
+	var found *ssa.Alloc
+	for _, b := range parent.Blocks {
+		for _, in := range b.Instrs {
+			if a, ok := in.(*ssa.Alloc); ok && a.Comment == name {
+				if found != nil {
+					return nil
+				}
+				found = a
+			}
+		}
+	}
+	return found
+}
+
+// capturedVarStores: the stores in parent that assign the captured variable.
+func capturedVarStores(parent, cl *ssa.Function, name string) []*ssa.Store {
+	var out []*ssa.Store
+	if envMethods[cl] != nil {
+		a := capturedVarAlloc(parent, cl, name)
+		if a == nil {
+			return nil
+		}
+		var visit func(al *ssa.Alloc, d int)
+		visit = func(al *ssa.Alloc, d int) {
+			if al.Referrers() == nil || d > 2 {
+				return
+			}
+			for _, r := range *al.Referrers() {
+				switch x := r.(type) {
+				case *ssa.Store:
+					if x.Addr == ssa.Value(al) {
+						if ld, ok := x.Val.(*ssa.UnOp); ok && ld.Op == token.MUL {
+							if tmp, ok := ld.X.(*ssa.Alloc); ok && tmp != al {
+								visit(tmp, d+1)
+							}
+						}
+					}
+				case *ssa.FieldAddr:
+					if fieldName(x.X.Type(), x.Field) != name || x.Referrers() == nil {
+						continue
+					}
+					for _, fr := range *x.Referrers() {
+						if st, ok := fr.(*ssa.Store); ok && st.Addr == ssa.Value(x) {
+							out = append(out, st)
+						}
+					}
+				}
+			}
+		}
+		visit(a, 0)
+		return out
+	}
+	for _, b := range parent.Blocks {
+		for _, in := range b.Instrs {
+			if st, ok := in.(*ssa.Store); ok {
+				if a, ok := st.Addr.(*ssa.Alloc); ok && a.Comment == name {
+					out = append(out, st)
+				}
+			}
+		}
+	}
+	return out
+}
+
+// fixedOutsideLoops: is the value computed once, outside every loop of its
+// function (so that every use, also inside loops, sees the same value)?
+func fixedOutsideLoops(v ssa.Value, d int) bool {
+	switch x := v.(type) {
+	case *ssa.Const, *ssa.Parameter:
+		return true
+	case *ssa.UnOp:
+		if x.Op == token.MUL {
+			if a, ok := x.X.(*ssa.Alloc); ok && d < 3 && a.Referrers() != nil {
+				n := 0
+				for _, r := range *a.Referrers() {
+					switch y := r.(type) {
+					case *ssa.Store:
+						if y.Addr != ssa.Value(a) || blockInLoop(y.Block()) || !fixedOutsideLoops(y.Val, d+1) {
+							return false
+						}
+						n++
+					case *ssa.UnOp, *ssa.DebugRef:
+					default:
+						return false
+					}
+				}
+				return n == 1
+			}
+		}
+	}
+	if in, ok := v.(ssa.Instruction); ok && in.Block() != nil {
+		return !blockInLoop(in.Block())
+	}
+	return false
+}
+
+// hostOf: the function that contains the static call to callee (full name as
+// printed by ssa): fn itself, or a helper extracted from it after the rules
+// were confirmed (unknownHelper), up to three levels down.
+func hostOf(fn *ssa.Function, callee string) *ssa.Function {
+	var find func(f *ssa.Function, d int) *ssa.Function
+	find = func(f *ssa.Function, d int) *ssa.Function {
+		var helpers []*ssa.Function
+		for _, b := range f.Blocks {
+			for _, in := range b.Instrs {
+				call, ok := in.(ssa.CallInstruction)
+				if !ok {
+					continue
+				}
+				sc := call.Common().StaticCallee()
+				if sc == nil {
+					continue
+				}
+				if sc.String() == callee {
+					return f
+				}
+				if unknownHelper(sc, d+1) {
+					helpers = append(helpers, sc)
+				}
+			}
+		}
+		if d < 3 {
+			for _, h := range helpers {
+				if r := find(h, d+1); r != nil {
+					return r
+				}
+			}
+		}
+		return nil
+	}
+	if r := find(fn, 0); r != nil {
+		return r
+	}
+	return fn
+}
+
 func param(fn *ssa.Function, i int) string {
+	if fn != nil && envMethods[fn] != nil {
+		i++ // a method standing for a closure: its receiver is the environment, not a parameter
+	}
 	if fn == nil || i >= len(fn.Params) {
 		return "param:?"
 	}
